@@ -12,12 +12,44 @@ WORKERS = 8
 RLIMIT_AS = 3 * 1024 ** 3      # a worker that asks for more dies; that death is the observation
 
 
+CORPUS = [None]
+
+
+def fuzz_corpus(run, seconds):
+    """Go's coverage-guided fuzzing over the same entry points (exploration (d) of the property's
+    quantifier).  The fuzz target has no oracle; what it finds (interesting inputs and crashers)
+    is exercised in the resource-limited workers and judged by TraceHostile like everything else."""
+    import shutil
+    hdir = os.path.join(vlib.scratch(), "harness-fuzz")
+    shutil.copytree(vlib.HARNESS, hdir)
+    gm = open(os.path.join(hdir, "go.mod")).read().replace("=> /repo", "=> " + os.path.abspath(vlib.REPO))
+    open(os.path.join(hdir, "go.mod"), "w").write(gm)
+    cache = os.path.join(vlib.scratch(), "fuzzcache")
+    p = subprocess.run(["go", "test", "-run", "xxx", "-fuzz", "FuzzBytes", "-fuzztime", "%ds" % seconds, "-parallel", "8",
+                        "-test.fuzzcachedir", cache, "."], cwd=os.path.join(hdir, "fuzz"), env=vlib.goenv(),
+                       capture_output=True, text=True, timeout=seconds * 3 + 600)
+    corpus = os.path.join(vlib.scratch(), "fuzzcorpus")
+    os.makedirs(corpus, exist_ok=True)
+    n = 0
+    for d in (os.path.join(cache, "FuzzBytes"), os.path.join(hdir, "fuzz", "testdata", "fuzz", "FuzzBytes")):
+        if os.path.isdir(d):
+            for f in os.listdir(d):
+                shutil.copy(os.path.join(d, f), os.path.join(corpus, "%d-%s" % (n, f)))
+                n += 1
+    execs = re.findall(r"execs: (\d+)", p.stdout)
+    run.cov["fuzzing"] = {"seconds": seconds, "executions": int(execs[-1]) if execs else 0, "corpus_inputs": n,
+                          "engine_exit": p.returncode, "crashers_reported_by_engine": p.stdout.count("Failing input written")}
+    if n == 0:
+        raise vlib.Infra("fuzzing produced no corpus: %s %s" % (p.stdout[-500:], p.stderr[-500:]))
+    return corpus
+
+
 def run_worker(drive, cases, out, shard, tier, start_from):
     def limit():
         resource.setrlimit(resource.RLIMIT_AS, (RLIMIT_AS, RLIMIT_AS))
     return subprocess.Popen([drive, "hostile", "-cases", cases, "-out", out, "-shard", str(shard),
                              "-shards", str(WORKERS), "-tier", tier, "-seed", str(vlib.seed()),
-                             "-from", str(start_from)],
+                             "-from", str(start_from)] + (["-corpus", CORPUS[0]] if CORPUS[0] else []),
                             preexec_fn=limit, stdout=subprocess.PIPE, stderr=subprocess.PIPE, text=True, env=vlib.goenv())
 
 
@@ -61,6 +93,8 @@ def check(pid, tier, args):
     with open(cases, "w") as o:
         for c in r.printed:
             o.write(json.dumps(c) + "\n")
+    if tier == "thorough":
+        CORPUS[0] = fuzz_corpus(run, int(os.environ.get("VERIF_FUZZ_SECONDS", "600")))
     # workers: one process per shard (TotalAlloc is process-wide), address space capped
     events, deaths, hangs = [], [], []
     procs = {}
